@@ -44,7 +44,7 @@ theorem setup_no_panic (c : Nat) (st : Hc.PairSetup.St) (i : Hc.PairSetup.In) :
         · rename_i name key sig _
           cases key with
           | badLen n => simp
-          | pk kn => simp only; split <;> simp
+          | pk kn => simp only; split <;> (try split) <;> simp
   | badMethod => simp [Hc.PairSetup.step, Hc.PairSetup.stepR]
   | badState n => simp [Hc.PairSetup.step, Hc.PairSetup.stepR]
   | malformedTlv => simp [Hc.PairSetup.step, Hc.PairSetup.stepR]
@@ -72,6 +72,7 @@ theorem verify_no_panic (c : Nat) (db : Hc.PairVerify.Store) (st : Hc.PairVerify
         · split
           · simp
           · simp
+          · simp
           · split <;> simp
   | badMethod => simp [Hc.PairVerify.step, Hc.PairVerify.stepR]
   | badState n => simp [Hc.PairVerify.step, Hc.PairVerify.stepR]
@@ -85,6 +86,17 @@ theorem pairings_no_panic (s : Hc.Pairings.Store) (i : Hc.Pairings.In) :
   | delete n => simp [Hc.Pairings.step]
   | otherMethod n => simp [Hc.Pairings.step]
   | malformedTlv => simp [Hc.Pairings.step]
+  | addOwn k => simp [Hc.Pairings.step]
+  | deleteOwn => simp [Hc.Pairings.step]
+
+/-- /pairings never touches the accessory's own identity (which is stored in the same database): an add or a removal
+    that names it is refused, the store is left as it is and no pairing event is raised (F16 repair — before it an admin
+    controller, or anybody who knew the setup code of an unpaired accessory, could replace the accessory's key pair by
+    naming itself like the accessory: after the next start every pair-setup panicked and every pair-verify was
+    answered with status 500). -/
+theorem own_identity_not_a_pairing (s : Hc.Pairings.Store) (k : Nat) :
+    Hc.Pairings.step true s (.addOwn k) = (s, .http500, none) ∧ Hc.Pairings.step true s .deleteOwn = (s, .http500, none) :=
+  ⟨rfl, rfl⟩
 
 /-- the code before the repair did panic: short / unauthenticated data at the right step, unstorable pairing -/
 theorem unfixed_panics :
@@ -112,7 +124,7 @@ theorem verify_recovers (c e name pk : Nat) (db : Hc.PairVerify.Store) (hdb : db
 
 /-- pair-setup on the same connection, from ANY controller state: a start request is accepted after at most one
     rejected start request; then the right setup-code proof is accepted and the key exchange stores the pairing. -/
-theorem setup_recovers (c a name key : Nat) (st : Hc.PairSetup.St) :
+theorem setup_recovers (c a name key : Nat) (hn : name ≠ Hc.PairSetup.ownName) (st : Hc.PairSetup.St) :
     let r1 := Hc.PairSetup.step true c st .m1
     let st1 := if r1.2.1 = .http500 then (Hc.PairSetup.step true c r1.1 .m1).1 else r1.1
     let r3 := Hc.PairSetup.step true c st1 (.m3 (.good a) (.validFor c st1.epoch a true))
@@ -122,7 +134,7 @@ theorem setup_recovers (c a name key : Nat) (st : Hc.PairSetup.St) :
     r3.2.1 = .tlv 4 none false true false ∧ r5.2.2 = some (name, key) := by
   cases hs : st.step <;> cases hst : st.started <;>
     simp [Hc.PairSetup.step, Hc.PairSetup.stepR, hs, hst, Hc.PairSetup.reset, Hc.PairSetup.openSealed, Hc.PairSetup.sigOk,
-      Hc.PairSetup.proofOk]
+      Hc.PairSetup.proofOk, hn]
 
 /-- a new connection (or one reopened after close) starts from the initial state whatever happened before,
     so by the two theorems above (with `st := init`) an honest handshake on it succeeds at once -/
